@@ -162,9 +162,11 @@ def run_one(fn, gen_form, outcomes, order, npre, flag):
 def programs(tier):
     simple = SIMPLE
     progs = []
-    for n in (1, 2, 3):
+    for n in ((1, 2, 3) if tier == "quick" else (1, 2, 3, 4)):
         for p in itertools.product(simple, repeat=n):
             if n == 3 and tier == "quick" and sum(1 for s in p if s[0] == "y") < 2:
+                continue
+            if n == 4 and sum(1 for s in p if s[0] == "y") < 2:
                 continue
             progs.append(list(p))
     inner_stmts = [s for s in simple if s[0] != "ifret"]
@@ -198,7 +200,7 @@ class C37(Check):
     level = "model_checking"
     rule = ("all coroutine bodies from the grammar {log, v = yield F0|F1|[F0,F1]|{a:F1,b:F0}|None|native(F2)|gen-sub(F2)| "
             "F0 again, return, raise, if flag: return, set the context variable, try/except/finally (except / finally / both, handler empty or "
-            "yielding / returning / raising)} as sequences of <= 3 simple statements and try blocks with <= 2 inner "
+            "yielding / returning / raising)} as sequences of <= 3 (thorough: <= 4 with >= 2 yields) simple statements and try blocks with <= 2 inner "
             "statements plus optional pre/post statements (thorough: nested try), each compiled as @gen.coroutine and as "
             "async def; x outcomes {result, exception} for each of 3 futures x every completion order x number of "
             "futures already done before the call (0..3) x flag; state = (program, outcomes, schedule) pair of runs; "
